@@ -1,7 +1,7 @@
 (* C20 — property theorems.  Statements only: each is closed by [exact] of a lemma proved in
    coq/C20/, followed by Print Assumptions. *)
 From Coq Require Import List Bool PArith NArith ZArith FMapPositive.
-From Scenic Require Import C20.Network C20.NetworkProofs C20.Framing C20.Pickle C20.MoreProofs.
+From Scenic Require Import C20.Network C20.NetworkProofs C20.Framing C20.Pickle C20.MoreProofs C20.PathProofs.
 Import ListNotations.
 
 (* the certified linkage checker: if it accepts a network, every link is reciprocal (Reciprocal is the
@@ -163,4 +163,101 @@ Example C20_example_round2 :
   model_lookup (ex_net (Some 7)) (index (elems (ex_net (Some 7)))) true 1 [5; 8] [5; 6; 8] None = Some 8 /\
   pickle_bad (mkNet (ex_elems (Some 7) ++ [mkMan 9 1%N (Some 5) (Some 6) N_ N_]) [2;3;4;5;6;7;8] [8] [] [8] [7] [5;6] [] [] [] [] [4] [3;2] false 0) = [9] /\
   pickle_bad (ex_net (Some 99)) = [5].
+Proof. vm_compute. repeat split; reflexivity. Qed.
+
+(* ---------------------------------------------------------------- round 3: entry paths of Network.fromFile *)
+(* [from_path handlers e useCache writeCache cur mapd optd snet ok]: the path given to fromFile has entry kind [e]
+   (.xodr / .snet / no extension / anything else), the directory holds base.xodr with digest [mapd] (None: no such
+   file) and base.snet with content [snet]; [handlers] = [HXodr; HSnet] is the table in its iteration order.
+   MAIN: through a map path (no extension, or .xodr) with the map file present, an unverified pickle is never
+   returned: the result is never "pickle as it is", and it is the cache exactly when caching is on, the .snet exists
+   and its header carries the current version, the digest of the CURRENT map and the digest of the CURRENT options
+   (and the payload loads).  Holds for every directory state, so also after any history. *)
+Theorem C20_path_cache_verified : forall e u w cur d o snet ok,
+  (e = ENoExt \/ e = EXodr) -> d <> [] -> o <> [] ->
+  from_path handlers e u w cur (Some d) o snet ok <> PPickleAsIs /\
+  (from_path handlers e u w cur (Some d) o snet ok = PCache <->
+   u = true /\ exists file, snet = Some file /\
+     length (firstn 4 file) = 4%nat /\ length (firstn 8 (skipn 68 file)) = 8%nat /\
+     le_decode (firstn 4 file) = cur /\ firstn 64 (skipn 4 file) = d /\ firstn 8 (skipn 68 file) = o /\
+     length d = 64%nat /\ ok = true).
+Proof. exact path_cache_verified. Qed.
+Print Assumptions C20_path_cache_verified.
+
+(* with the map present the extension-less path behaves exactly like the explicit .xodr path, whatever the cache *)
+Theorem C20_path_noext_is_xodr : forall u w cur d o snet ok,
+  from_path handlers ENoExt u w cur (Some d) o snet ok = from_path handlers EXodr u w cur (Some d) o snet ok.
+Proof. exact path_noext_is_xodr. Qed.
+Print Assumptions C20_path_noext_is_xodr.
+
+(* a pickle is loaded as it is only when the caller named the .snet file or there is no map file to compare with *)
+Theorem C20_path_pickle_as_is_no_map : forall e u w cur mapd o snet ok,
+  from_path handlers e u w cur mapd o snet ok = PPickleAsIs -> e = ESnet \/ (e = ENoExt /\ mapd = None).
+Proof. exact path_pickle_as_is_no_map. Qed.
+Print Assumptions C20_path_pickle_as_is_no_map.
+
+(* the parser runs only through a map path with the map present, and writes a cache iff writeCache *)
+Theorem C20_path_parsed_only_map_entry : forall e u w cur mapd o snet ok b,
+  from_path handlers e u w cur mapd o snet ok = PParsed b -> (e = ENoExt \/ e = EXodr) /\ b = w /\ exists d, mapd = Some d.
+Proof. exact path_parsed_only_map_entry. Qed.
+Print Assumptions C20_path_parsed_only_map_entry.
+
+(* the cache file is rewritten exactly when the parser ran with writeCache (header of the current map and options);
+   loading from a pickle or failing never touches it *)
+Theorem C20_path_written : forall e u w cur mapd o snet ok payload,
+  snet_after handlers e u w cur mapd o snet ok payload =
+  match from_path handlers e u w cur mapd o snet ok, mapd with
+  | PParsed true, Some d => Some (dump_header cur d o ++ payload)
+  | _, _ => snet
+  end.
+Proof. exact path_written. Qed.
+Print Assumptions C20_path_written.
+
+(* write then read through any map path: the written cache is used exactly for the same version, map and options *)
+Theorem C20_path_dump_roundtrip : forall e cur d o payload cur' d' o' w,
+  (e = ENoExt \/ e = EXodr) ->
+  (cur < 256 ^ 4)%N -> length d = 64%nat -> length o = 8%nat -> d' <> [] -> o' <> [] ->
+  from_path handlers e true w cur' (Some d') o' (Some (dump_header cur d o ++ payload)) true = PCache <->
+  (cur = cur' /\ d = d' /\ o = o').
+Proof. exact path_dump_roundtrip. Qed.
+Print Assumptions C20_path_dump_roundtrip.
+
+(* the iteration order of the table is what the main theorem rests on: any table listing the pickled format first
+   returns an existing pickle unverified for an extension-less path although the map is there (refutation of the
+   property for that order; witness below) *)
+Theorem C20_path_snet_first_refuted : forall hs u w cur d o file ok,
+  from_pickle cur None None file ok = Loaded ->
+  from_path (HSnet :: hs) ENoExt u w cur (Some d) o (Some file) ok = PPickleAsIs.
+Proof. exact path_snet_first_unverified. Qed.
+Print Assumptions C20_path_snet_first_refuted.
+
+(* histories on one directory (loads through any entry, map replaced/removed, cache replaced/removed): every load
+   through a map path with the map present never returns a pickle as it is and returns a cache only verified against
+   the map and options of that very load *)
+Theorem C20_history_cache_verified : forall cur okf payload ops mapd snet,
+  Forall (fun ob => (o_entry ob = ENoExt \/ o_entry ob = EXodr) -> forall d, o_mapd ob = Some d -> d <> [] -> o_optd ob <> [] ->
+     o_res ob <> PPickleAsIs /\
+     (o_res ob = PCache -> o_use ob = true /\ exists file, o_snet ob = Some file /\
+        length (firstn 4 file) = 4%nat /\ length (firstn 8 (skipn 68 file)) = 8%nat /\
+        le_decode (firstn 4 file) = cur /\ firstn 64 (skipn 4 file) = d /\ firstn 8 (skipn 68 file) = o_optd ob /\
+        length d = 64%nat /\ okf file = true))
+    (run handlers cur okf payload ops mapd snet).
+Proof. exact history_cache_verified. Qed.
+Print Assumptions C20_history_cache_verified.
+
+(* non-vacuity: stale cache (other map, other options) next to the map: ignored through both map paths, returned as
+   it is through the explicit .snet path and by a table with the pickled format first; a 14-step history *)
+Example C20_example_paths :
+  from_path handlers ENoExt true false 7%N (Some (repeat 9%N 64)) (repeat 3%N 8) (Some stale_file) true = PParsed false /\
+  from_path handlers EXodr true true 7%N (Some (repeat 9%N 64)) (repeat 3%N 8) (Some stale_file) true = PParsed true /\
+  from_path handlers ESnet true false 7%N (Some (repeat 9%N 64)) (repeat 3%N 8) (Some stale_file) true = PPickleAsIs /\
+  from_path handlers ENoExt true false 7%N (Some (repeat 1%N 64)) (repeat 2%N 8) (Some stale_file) true = PCache /\
+  from_path handlers ENoExt true false 7%N None (repeat 3%N 8) (Some stale_file) true = PPickleAsIs /\
+  from_path [HSnet; HXodr] ENoExt true false 7%N (Some (repeat 9%N 64)) (repeat 3%N 8) (Some stale_file) true = PPickleAsIs /\
+  map o_res (run handlers 7%N (fun _ => true) []
+    [OpLoad ENoExt true true oA; OpLoad ENoExt true true oA; OpLoad ENoExt true false oB; OpLoad EXodr true true oA;
+     OpSetMap (Some dB); OpLoad ENoExt true true oA; OpLoad ENoExt true true oA; OpLoad ESnet true true oB;
+     OpSetMap None; OpLoad ENoExt true true oB; OpLoad EXodr true true oB; OpSetSnet None; OpLoad ENoExt true true oA;
+     OpLoad EOther true true oA] (Some dA) None)
+  = [PParsed true; PCache; PParsed false; PCache; PParsed true; PCache; PPickleAsIs; PPickleAsIs; PNotFound; PNotFound; PUnknownFormat].
 Proof. vm_compute. repeat split; reflexivity. Qed.
